@@ -341,6 +341,25 @@ func (e *SpecEnv) eval(x ast.Expr) (SV, error) {
 		case token.SUB:
 			return SV{T("(- "+v.T.S+")", "Int"), v.Typ}, nil
 		}
+	case *ast.TypeAssertExpr:
+		// x.(*T): the interface value x seen as the pointer it holds (interface values with pointer payloads are that pointer
+		// in this encoding); for naming the object the CODE obtains by the same assertion, nothing is asserted about x here
+		if n.Type != nil {
+			t, err := e.resolveType(n.Type)
+			if err != nil {
+				return SV{}, err
+			}
+			if _, isPtr := t.Underlying().(*types.Pointer); isPtr {
+				v, err := e.eval(n.X)
+				if err != nil {
+					return SV{}, err
+				}
+				if v.T.Sort == "Int" {
+					return SV{v.T, t}, nil
+				}
+			}
+		}
+		return SV{}, fmt.Errorf("type assertion in a specification: only x.(*T) on an interface value")
 	case *ast.BinaryExpr:
 		return e.binary(n)
 	case *ast.SelectorExpr:
